@@ -31,22 +31,26 @@ ResMism(e) ==
   \cup (IF e.res.k = "ok" /\ out'.k = "ok" /\ e.res.bytes # [i \in 1..Len(out'.cells) |-> IF out'.cells[i] = Junk THEN -1 ELSE ByteOf(out'.cells[i])]
         THEN {"result.bytes"} ELSE {})
   \cup (IF e.res.k = "ok" /\ e.res.proto # e.xproto THEN {"result.proto"} ELSE {})
-  \cup (IF e.res.k = "ok" /\ e.res.src # (IF e.v6 = 1 THEN "Ipv6HeaderPayloadLen" ELSE "Ipv4HeaderTotalLen") THEN {"result.len_source"} ELSE {})
   \cup (IF e.res.k = "err" /\ out'.k = "err" /\ e.res.err \notin out'.kinds THEN {"result.errkind"} ELSE {})
-  \cup (IF ~Counts(e) THEN {"occupancy"} ELSE {})
+
+\* Pool occupancy (hook H3: streams under reassembly, recycled buffers) is logged and compared for information only: C11 does not say how
+\* many buffers a pool keeps or when it allocates them (a pool that allocates lazily or recycles differently keeps the property), so a
+\* difference is not a violation.  What C11 does say about releasing a finished stream is observable through the results: a fragment that
+\* arrives after completion starts a new reassembly.
 
 \* the reassembly state itself, read from an IpDefragBuf that is fed the same fragments (sections(), end(), is_complete(), data().len())
 ShadowMism(e) ==
   IF e.shadow.has # 1 THEN {} ELSE
   LET h == e.shadow
       known == e.s \in DOMAIN active'
-      secs == {<<h.secs[i][1], h.secs[i][2]>> : i \in 1..Len(h.secs)} IN
+      secs == {<<h.secs[i][1], h.secs[i][2]>> : i \in 1..Len(h.secs)}
+      \* which bytes have been received - not how the ranges are stored (merged or not, in which order)
+      Cover(S) == UNION {a[1]..(a[2] - 1) : a \in S} IN
   (IF (h.k = "ok") # (out'.k # "err") THEN {"buf.verdict:" \o h.k} ELSE IF h.k # "ok" /\ h.k \notin out'.kinds THEN {"buf.errkind"} ELSE {})
   \cup (IF (h.complete = 1) # (out'.k = "ok") THEN {"buf.is_complete"} ELSE {})
-  \cup (IF known THEN (IF secs # active'[e.s].secs \/ Len(h.secs) # Cardinality(active'[e.s].secs) THEN {"buf.sections"} ELSE {})
+  \cup (IF known THEN (IF Cover(secs) # Cover(active'[e.s].secs) THEN {"buf.sections"} ELSE {})
                        \cup (IF h.end # active'[e.s].end THEN {"buf.end"} ELSE {})
-                       \cup (IF h.dlen # active'[e.s].buf.len THEN {"buf.data_len"} ELSE {})
-        ELSE IF out'.k = "ok" THEN (IF secs # {<<0, Len(out'.cells)>>} \/ h.end # Len(out'.cells) THEN {"buf.sections"} ELSE {})
+        ELSE IF out'.k = "ok" THEN (IF Cover(secs) # 0..(Len(out'.cells) - 1) \/ h.end # Len(out'.cells) THEN {"buf.sections"} ELSE {})
         ELSE (IF h.secs # <<>> \/ h.end # -1 THEN {"buf.state_after_rejected_first_fragment"} ELSE {}))
   \cup (IF h.proto # e.xproto THEN {"buf.ip_number"} ELSE {})
 
@@ -66,13 +70,12 @@ TPass ==
 TReturn ==
   /\ Consume /\ Ev.ev = "return"
   /\ ReturnBuf([i \in 1..Ev.n |-> Junk])
-  /\ Note(Ev, IF Counts(Ev) THEN {} ELSE {"occupancy"})
+  /\ Note(Ev, {})
 
 TEvict ==
   /\ Consume /\ Ev.ev = "evict"
   /\ IF Ev.s \in DOMAIN active THEN Evict({Ev.s}) ELSE UNCHANGED vars
-  /\ Note(Ev, (IF Counts(Ev) THEN {} ELSE {"occupancy"})
-              \cup (IF Ev.removed # (IF Ev.s \in DOMAIN active THEN 1 ELSE 0) THEN {"evict.removed"} ELSE {}))
+  /\ Note(Ev, {})
 
 \* a panic inside the pool is recorded by the harness as an event of its own
 TPanic == /\ Consume /\ Ev.ev = "panic" /\ bad' = bad \cup {<<Ev.id, "panic">>} /\ sync' = FALSE /\ UNCHANGED vars
